@@ -77,6 +77,13 @@ def perturbed_k(k, dk, M, pert):
         return base + 0.5 * dk
     if kind == 'rescale':
         return base * 1.01
+    if kind == 'nan':
+        out = base.copy()
+        if pert[1] == 'all':
+            out[:] = np.nan
+        elif pert[1] < M:
+            out[pert[1]] = np.nan
+        return out
     j = pert[1]
     if j >= M:
         return base
@@ -91,7 +98,7 @@ def expected_ok(src, rel, pert, L):
     if rel != 'equal':
         return False
     if src in ('array_k', 'file2'):
-        if pert[0] in ('shift', 'rescale', 'outside'):
+        if pert[0] in ('shift', 'rescale', 'outside', 'nan'):
             return False
     return True
 
@@ -197,6 +204,14 @@ def case_one(rec, c):
         raised = None
     except Exception as e:
         raised = e
+        # a retry with the very same grid object is refused as well
+        try:
+            obj.calculate(k)
+            rec.fail(c, '%s: mismatching data (%s, %r) was refused once, but a second calculate() with the same grid was accepted' % (src, rel, pert),
+                     tags(src, 'accepted-mismatch'))
+            return
+        except Exception:
+            pass
     if not np.array_equal(k, k0):
         rec.fail(c, 'calculate modified the domain k grid', tags(src, 'purity'))
     verdict = None
@@ -310,7 +325,7 @@ def cases_for(dspec, every_point):
                 continue
             perts = [['none']]
             if src in ('array_k', 'file2'):
-                perts += [['shift'], ['rescale']]
+                perts += [['shift'], ['rescale'], ['nan', 'all'], ['nan', 0], ['nan', L // 2]]
                 if rel == 'equal':
                     pts = range(L) if every_point else sorted(set([0, 1, L // 2, L - 2, L - 1]))
                     for j in pts:
